@@ -65,3 +65,12 @@ package connector
 //verif:store[close-queue-after-writes-landed] deferredAckClosed requires called("(*Persister).Flush") && called("(*Persister).WaitPendingWritesContext")
 //verif:call[drain-delivery-before-stopping-stream] $field.stopStream requires called("(*Source).waitDeliveryDrain") && stored("deferredAckClosed")
 //verif:call[plugin-teardown-last] SourcePlugin.Teardown requires called("(*Source).waitDeliveryDrain") && called("(*WaitGroup).Wait") && stored("deferredAckClosed")
+
+// C06 / C11: a destination's stream is stopped and its goroutines joined before
+// the plugin is torn down, and the connector is released (plugin and running
+// marker cleared, persister told) whatever the plugin's teardown returned.
+//verif:func (*Destination).Teardown(d, ctx) (err)
+//verif:call[join-before-plugin-teardown] DestinationPlugin.Teardown requires called("(*WaitGroup).Wait") && called("(*RWMutex).Lock")
+//verif:ensures[released-even-on-error] called("DestinationPlugin.Teardown") ==> d.plugin == nil && d.Instance.connector == nil && stored("plugin") && stored("connector")
+//verif:ensures[persister-told] called("DestinationPlugin.Teardown") && d.Instance.ProvisionedBy != ProvisionTypeDLQ ==> called("(*Persister).ConnectorStopped")
+
